@@ -45,8 +45,16 @@ def chrom_parent(genome, name="chr1", alphabet="NT_EXTENDED_GAPPED"):
     return seq_to_parent(genome, alphabet=Alphabet[alphabet], seq_id=name)
 
 
-def chunk_parent(genome, cs, ce, name="chr1", alphabet="NT_EXTENDED_GAPPED", strand="+"):
-    """sequence-chunk parent for the window [cs, ce); strand "-" = the chunk is the reverse complement of its window"""
+def chunk_parent(genome, cs, ce, name="chr1", alphabet="NT_EXTENDED_GAPPED", strand="+", idiom="api"):
+    """sequence-chunk parent for the window [cs, ce); strand "-" = the chunk is the reverse complement of its window.
+    idiom "docstring": built by hand as the docstring of liftover_location_to_seq_chunk_parent shows it - the chunk sequence and
+    its Parent carry NO id (only the chromosome is named), so two chunks of one chromosome differ in their window alone"""
+    if idiom == "docstring":
+        from harness.refmodel import revcomp
+        from inscripta.biocantor.parent.parent import SequenceType
+        sub = genome[cs:ce] if strand != "-" else revcomp(genome[cs:ce])
+        return Parent(sequence=Sequence(sub, Alphabet[alphabet], type=SequenceType.SEQUENCE_CHUNK,
+                                        parent=Parent(location=SingleInterval(cs, ce, STRAND[strand], parent=Parent(id=name, sequence_type=SequenceType.CHROMOSOME)))))
     if strand == "-":
         from harness.refmodel import revcomp
         return seq_chunk_to_parent(revcomp(genome[cs:ce]), name, cs, ce, strand=STRAND["-"], alphabet=Alphabet[alphabet])
